@@ -256,22 +256,24 @@ type e2eEnv struct {
 }
 
 type batch struct {
-	env      *e2eEnv
-	host     string
-	main     *bed.Stub
-	off      *bed.Stub
-	dying    *bed.Stub
-	second   *bed.Stub // a second enabled endpoint (requests for "secondpods"), removable from the server list
-	noSecond bool
-	sibName  string // a second max-in-flight schema (requests for "sibpods" on main) whose name nearly collides with hot
-	sibMax   int32
-	noSib    bool
-	defName  bool // a user schema literally named "system-default" (limit 1, resource "defpods") and a policy without schema ("freepods")
-	rel      *releases
-	M        int32
-	violated bool
-	log      []string
-	mu       sync.Mutex
+	env           *e2eEnv
+	host          string
+	main          *bed.Stub
+	off           *bed.Stub
+	dying         *bed.Stub
+	second        *bed.Stub // a second enabled endpoint (requests for "secondpods"), removable from the server list
+	noSecond      bool
+	sibName       string // a second max-in-flight schema (requests for "sibpods" on main) whose name nearly collides with hot
+	sibMax        int32
+	noSib         bool
+	groupPolicies bool   // policies selected by user GROUP: grp-a -> hot (limit M), grp-b -> side (limit 2)
+	tok           string // bearer token to use instead of the environment's (same user name, other groups)
+	defName       bool   // a user schema literally named "system-default" (limit 1, resource "defpods") and a policy without schema ("freepods")
+	rel           *releases
+	M             int32
+	violated      bool
+	log           []string
+	mu            sync.Mutex
 }
 
 func (b *batch) note(f string, a ...interface{}) {
@@ -304,6 +306,14 @@ func (b *batch) object(hotCfg cfg, fillerMax int32) *proxyv1alpha1.UpstreamClust
 	if b.defName {
 		pols = append(pols, mkS("defpods", []string{b.main.URL}, "system-default"), mkS("freepods", []string{b.main.URL}, ""))
 	}
+	if b.groupPolicies {
+		byGroup := func(group, schema string) proxyv1alpha1.DispatchPolicy {
+			p := mkS("*", []string{b.main.URL}, schema)
+			p.Rules[0].UserGroups = []string{group}
+			return p
+		}
+		pols = append(pols, byGroup("grp-a", hot), byGroup("grp-b", side))
+	}
 	pols = append(pols, bed.CatchAllPolicy([]string{b.main.URL}, hot))
 	var schemas []proxyv1alpha1.FlowControlSchema
 	switch hotCfg.Kind {
@@ -320,12 +330,15 @@ func (b *batch) object(hotCfg cfg, fillerMax int32) *proxyv1alpha1.UpstreamClust
 	if b.defName {
 		schemas = append(schemas, mifSchema("system-default", 1))
 	}
+	if b.groupPolicies {
+		schemas = append(schemas, mifSchema(side, 2))
+	}
 	schemas = append(schemas, mifSchema(filler, fillerMax))
 	return bed.BuildCluster(bed.ClusterSpec{Name: b.host, Servers: servers, Disabled: map[string]bool{b.off.URL: true}, Policies: pols, Schemas: schemas})
 }
 
 func (b *batch) apply(c cfg, fillerMax int32) bool {
-	sr := b.env.gw.Apply(b.object(c, fillerMax))
+	sr := b.env.gw.Apply(stamps.stamp(b.object(c, fillerMax)))
 	if sr.Err != nil || sr.Panic != nil || sr.Requeue {
 		b.env.r.Inconclusive(fmt.Sprintf("controller did not apply the C05 e2e cluster: %+v", sr))
 		return false
@@ -370,7 +383,7 @@ func (b *batch) startOn(mode, resource string) *pending {
 	case "upload-then-5xx":
 		method, body, mode = "POST", strings.NewReader(strings.Repeat("z", 64<<10)), "5xx"
 	}
-	req := bed.NewRequest(method, b.host, "/api/v1/namespaces/default/"+resource, b.env.tok, id, body)
+	req := bed.NewRequest(method, b.host, "/api/v1/namespaces/default/"+resource, b.token(), id, body)
 	req.Header.Set(modeHeader, mode)
 	if mode == "upgrade" || mode == "panic-in-upgrade-hijack" {
 		req.Header.Set("Connection", "Upgrade")
@@ -400,7 +413,7 @@ func (b *batch) startRaw(mode, resource string) *pending {
 		}
 		defer c.Close()
 		_ = c.SetDeadline(time.Now().Add(watchdog))
-		hdr := fmt.Sprintf("Host: %s\r\nAuthorization: Bearer %s\r\n%s: %s\r\n", b.host, b.env.tok, bed.IDHeader, id)
+		hdr := fmt.Sprintf("Host: %s\r\nAuthorization: Bearer %s\r\n%s: %s\r\n", b.host, b.token(), bed.IDHeader, id)
 		path := "/api/v1/namespaces/default/" + resource
 		switch mode {
 		case "http10":
@@ -528,9 +541,6 @@ func (b *batch) probe(limit int, held int, requireFill bool, sigTail string, wit
 		return mine, false
 	}
 	o.forwarded = b.seen(o.id)
-	if res == "events" {
-		sigTail += "/probe-on-events"
-	}
 	b.note("over-limit probe %s -> %d forwarded=%v", o.id, o.status, o.forwarded)
 	if o.forwarded && o.status == 429 {
 		// refused towards the client but proxied all the same (and the deferred release then frees a slot it never took)
@@ -573,8 +583,9 @@ func endToEnd(r *vkit.R) {
 	nEnd := count(r.Quick(), 108, 1800, 360)
 	scen := []string{"type-toggle-tokenBucket", "type-toggle-exempt", "admitted-as-tokenBucket", "delete-re-add", "resize-down", "resize-up", "noop-update",
 		"endpoint-removed", "near-collision-sibling", "schema-named-system-default",
-		"cluster-delete-recreate", "limit-zero", "storm", "two-clusters-same-schema"}
-	nScen := count(r.Quick(), 42, 560, 140)
+		"cluster-delete-recreate", "limit-zero", "storm", "two-clusters-same-schema",
+		"cluster-recreate-coalesced", "same-user-different-groups"}
+	nScen := count(r.Quick(), 48, 640, 160)
 	r.Parallel(nEnd+nScen, 6, func(i int, g *vkit.Rand) {
 		b := &batch{env: env, host: fmt.Sprintf("c05e2e%d.test", i), rel: &releases{m: map[string]chan struct{}{}}}
 		b.main, b.off = bed.NewStub("main"), bed.NewStub("off")
@@ -604,6 +615,10 @@ func endToEnd(r *vkit.R) {
 				b.second.SetResponder(responder(b.rel))
 			case "schema-named-system-default":
 				b.defName = true
+			case "cluster-recreate-coalesced":
+				b.M = 3
+			case "same-user-different-groups":
+				b.groupPolicies = true
 			case "limit-zero":
 				b.M = 0
 			case "storm":
@@ -621,7 +636,7 @@ func endToEnd(r *vkit.R) {
 		if !b.apply(cur, 1) {
 			return
 		}
-		defer gw.Delete(b.host)
+		defer func() { stamps.forget(b.host); gw.Delete(b.host) }()
 		obj := b.object(cur, 1)
 		for _, s := range obj.Spec.Servers {
 			if s.Disabled != nil && *s.Disabled {
@@ -739,6 +754,12 @@ func endToEnd(r *vkit.R) {
 			return
 		case "two-clusters-same-schema":
 			b.twoClusters(witness)
+			return
+		case "cluster-recreate-coalesced":
+			b.clusterRecreateCoalesced(witness)
+			return
+		case "same-user-different-groups":
+			b.sameUserDifferentGroups(witness)
 			return
 		}
 		if b.sibName != "" {
@@ -1055,6 +1076,7 @@ func (b *batch) clusterDeleteRecreate(witness func() map[string]interface{}) {
 		r.Inconclusive("setup: first stream not admitted on a fresh limiter")
 		return
 	}
+	stamps.forget(b.host)
 	b.env.gw.Delete(b.host)
 	b.note("cluster object deleted with stream %s in flight", A.id)
 	if _, ok := b.finish(A); !ok {
@@ -1133,7 +1155,7 @@ func (b *batch) storm(g *vkit.Rand, witness func() map[string]interface{}) {
 			} else {
 				fillerMax++
 			}
-			sr := b.env.gw.Apply(b.object(cfg{Kind: kMIF, Max: lim}, fillerMax))
+			sr := b.env.gw.Apply(stamps.stamp(b.object(cfg{Kind: kMIF, Max: lim}, fillerMax)))
 			if sr.Err != nil || sr.Panic != nil {
 				return
 			}
@@ -1209,6 +1231,7 @@ func (b *batch) twoClusters(witness func() map[string]interface{}) {
 	deleted := false
 	defer func() {
 		if !deleted {
+			stamps.forget(b2.host)
 			b.env.gw.Delete(b2.host)
 		}
 	}()
@@ -1245,6 +1268,7 @@ func (b *batch) twoClusters(witness func() map[string]interface{}) {
 		return
 	}
 	// the other cluster is deleted with its streams in flight
+	stamps.forget(b2.host)
 	b.env.gw.Delete(b2.host)
 	deleted = true
 	b.note("second cluster deleted")
@@ -1264,4 +1288,88 @@ func (b *batch) twoClusters(witness func() map[string]interface{}) {
 	}
 	r.Count("e2e_two_clusters_scenarios", 1)
 	r.Distinct(vkit.Hash64("e2e-twoclusters"))
+}
+
+func (b *batch) token() string {
+	if b.tok != "" {
+		return b.tok
+	}
+	return b.env.tok
+}
+
+// clusterRecreateCoalesced: the object (limit 3, generation 1) is deleted and created again under the same name with limit
+// 1 (generation 1 again, new uid); the controller handles both events only when the lister already holds the new object,
+// so the EXISTING cluster info is synced with the new incarnation. The limit of the latest object (1) must be in force.
+func (b *batch) clusterRecreateCoalesced(witness func() map[string]interface{}) {
+	r := b.env.r
+	gw := b.env.gw
+	old := gw.RemoveFromLister(b.host)
+	if old == nil {
+		r.Inconclusive("setup: object not in the lister")
+		return
+	}
+	stamps.forget(b.host)
+	nw := gw.SetLister(stamps.stamp(b.object(cfg{Kind: kMIF, Max: 1}, 1)))
+	for _, ev := range []*proxyv1alpha1.UpstreamCluster{old, nw} {
+		if sr := gw.Deliver(ev); sr.Err != nil || sr.Panic != nil || sr.Requeue {
+			r.Inconclusive(fmt.Sprintf("controller did not handle the events of the re-created object: %+v", sr))
+			return
+		}
+	}
+	b.note("object deleted and created again with %s=maxInflight(1) (generation %d -> %d, uid %s -> %s); both events handled with the new object in the lister", hot, old.Generation, nw.Generation, old.UID, nw.UID)
+	if !gw.WaitReady(b.host, b.main.URL, true, watchdog) {
+		r.Inconclusive("watchdog: endpoint not ready after the re-creation")
+		return
+	}
+	b.M = 1
+	mine, ok := b.probe(1, 0, true, "scenario=cluster-recreate-coalesced", witness)
+	if !ok {
+		return
+	}
+	b.releaseAll(mine)
+	if old.Generation == nw.Generation {
+		r.Count("e2e_recreate_coalesced_same_generation", 1)
+	}
+	r.Distinct(vkit.Hash64("e2e-recreate-coalesced"))
+}
+
+// sameUserDifferentGroups: the same user NAME arrives with different groups (two bearer tokens; client certificates with
+// the same CN and another O, or impersonation, do this) and the groups select different policies / schemas for the same
+// kind of request. Exhausting the schema of one group must not reject the other group's requests, and each schema admits
+// exactly its own limit.
+func (b *batch) sameUserDifferentGroups(witness func() map[string]interface{}) {
+	r := b.env.r
+	tokA := b.env.gw.Tokens.Add(&user.DefaultInfo{Name: "carol", Groups: []string{"grp-a"}})
+	tokB := b.env.gw.Tokens.Add(&user.DefaultInfo{Name: "carol", Groups: []string{"grp-b"}})
+	const tail = "scenario=same-user-different-groups"
+	// group a -> hot (limit 1): exhaust it
+	b.tok = tokA
+	a, ok := b.probe(1, 0, true, tail+"/group-a-first", witness)
+	if !ok || b.violated {
+		b.releaseAll(a)
+		return
+	}
+	// group b -> side (limit 2): same user name, same kind of request
+	b.tok = tokB
+	bs, ok := b.probe(2, 0, true, tail+"/group-b-while-a-exhausted", witness)
+	if !ok || b.violated {
+		b.releaseAll(append(a, bs...))
+		return
+	}
+	// group a's request finishes; with group b's schema exhausted group a gets exactly its one slot again
+	b.tok = tokA
+	if !b.releaseAll(a) || !b.inflightIs(2) {
+		r.Inconclusive("watchdog: stream did not finish")
+		return
+	}
+	a, ok = b.probe(1, 0, true, tail+"/group-a-while-b-exhausted", witness)
+	if !ok {
+		return
+	}
+	b.releaseAll(append(a, bs...))
+	b.tok = ""
+	if !b.violated {
+		r.Count("e2e_same_user_different_groups_scenarios", 1)
+	}
+	r.Distinct(vkit.Hash64("e2e-groups"))
 }
